@@ -1,4 +1,7 @@
 import IronCalc.User.WFProofs
+import IronCalc.Sheet.ColsWF
+import IronCalc.Props.C29
+import IronCalc.Props.C30
 /-
   C27 — Workbook structure stays well-formed, on the attribute model (`User/WF.lean: WFBook`):
   sheet names valid and unique ignoring case, sheet ids unique, at least one sheet, defined names
@@ -138,3 +141,275 @@ example : keepsSheets (.setColumnsWidth 0 1 3 40) = true := rfl
 example : WFBook envEx (doOp envEx namedBook (.setColumnsHidden 1 2 3 true)).w = true := by decide
 
 end IronCalc.User.C27
+
+/-!
+  ## Column descriptors, row entries and style indices (clauses of C27 formerly only evaluated on
+  the implementation)
+
+  `ColsWF` — sorted by `min`, pairwise disjoint, `1 ≤ min ≤ max ≤ 16384` — and `RowsWF` — one
+  entry per row index, `1 ≤ r ≤ 1048576` — are preserved by every operation that rewrites
+  `worksheet.cols` / `worksheet.rows`: insert / delete / move columns and rows (models of
+  base/src/actions.rs in Sheet/Structure*.lean, authoritative for the structural rewrites) and
+  set width / hidden / style, delete style (C29 models Sheet/Cols.lean, Sheet/Rows.lean).
+  Helpers: Sheet/ColsWF.lean.
+-/
+namespace IronCalc.ColsWF
+open IronCalc.Structure
+
+/-- delete_columns (arguments as the code accepts them: `count > 0`, `1 ≤ column`) preserves the
+    column clause, for ALL well-formed descriptor lists — every position of the deleted band
+    relative to every descriptor (cases A–F, band ends on `min`, on `max`, …) -/
+theorem cols_delete_wf {α : Type} (column count : Int) (hk : 0 < count) (hc : 1 ≤ column)
+    (cols : List (ColD α)) (h : ColsWF cols) : ColsWF (deleteCols column count cols) :=
+  deleteCols_sorted column count hk cols h (Int.le_refl _) (by omega)
+
+/-- F27b (pinned `column_start < min`): deleting exactly the columns of a descriptor left it with
+    `min > max`; deleting the head of `[3,6]` kept `min = 3` only because case D happens to agree -/
+theorem pinned_delete_cols_not_wf :
+    ColsWF [(⟨3, 3, ()⟩ : ColD Unit)] ∧ ¬ ColsWF (deleteColsPinned 3 1 [(⟨3, 3, ()⟩ : ColD Unit)]) := by
+  decide
+
+/-- the seeded defect `column_end <= min` (a descriptor whose first column is the last deleted one
+    is displaced whole) yields overlapping descriptors — not an instance of `deleteCols` -/
+example : deleteCols 2 1 [(⟨1, 2, 1⟩ : ColD Nat), ⟨3, 4, 2⟩] = [⟨1, 1, 1⟩, ⟨2, 3, 2⟩] := by decide
+example : deleteCols 2 2 [(⟨1, 2, 1⟩ : ColD Nat), ⟨3, 4, 2⟩] = [⟨1, 1, 1⟩, ⟨2, 2, 2⟩] := by decide
+
+/-- insert_columns (`count > 0`, any `column`) keeps the descriptors sorted, disjoint and `≥ 1`;
+    they stay inside the grid when no descriptor is pushed past the last column -/
+theorem cols_insert_wf {α : Type} (column count : Int) (hk : 0 < count) (cols : List (ColD α)) (h : ColsWF cols) :
+    SortedD 0 (16384 + count) (insertCols column count cols) ∧
+    ((∀ d ∈ cols, column ≤ d.max → d.max + count ≤ 16384) → ColsWF (insertCols column count cols)) :=
+  ⟨insertCols_sorted column count hk cols h, fun hfit => insertCols_wf column count hk cols h hfit⟩
+
+/-- F27e: the code checks only the cells against the last column, so a descriptor reaching the
+    last column (a whole-sheet style, a styled last column) is pushed off the grid -/
+theorem insert_cols_off_grid :
+    ColsWF [(⟨1, 16384, ()⟩ : ColD Unit)] ∧ ¬ ColsWF (insertCols 5 1 [(⟨1, 16384, ()⟩ : ColD Unit)]) := by
+  decide
+
+/-- move_columns_action (block `[column, column+n)` by `d`, both inside the grid as the code
+    demands) preserves the column clause -/
+theorem cols_move_wf (column : Int) (n : Nat) (d : Int) (cols : List (ColD CAtt)) (h : ColsWF cols)
+    (h1 : 1 ≤ column) (h2 : column + n - 1 ≤ 16384) (h3 : 1 ≤ column + d) (h4 : column + n - 1 + d ≤ 16384) :
+    ColsWF ((blockOps column n d).foldl (fun cs o => stepColsD o cs) cols) :=
+  moveBlock_sorted column n d cols h (by omega) h2 (by omega) h4
+
+/-- the descriptors of the edited sheet after one structural step of the book model are
+    `stepColsD` of its descriptors; the other sheets' descriptors are untouched -/
+theorem stepCols_colsOf (s : Nat) (o : Op) (b : Book) :
+    (((stepCols .col s o b).filter (·.1 = s)).map (·.2) = stepColsD o (colsOf b s)) ∧
+    ∀ s', s' ≠ s → ((stepCols .col s o b).filter (·.1 = s')).map (·.2) = colsOf b s' := by
+  constructor
+  · simp only [stepCols, List.filter_append, List.map_append]
+    have h1 : (b.cols.filter (fun x => decide (x.1 ≠ s))).filter (fun x => decide (x.1 = s)) = [] := by
+      simp [List.filter_eq_nil_iff]
+    rw [h1]
+    cases o <;> simp [stepColsD, List.filter_map, Function.comp_def, List.filter_eq_self.mpr]
+  · intro s' hs'
+    simp only [stepCols, List.filter_append, List.map_append, colsOf]
+    have h2 : ∀ (l : List (ColD CAtt)), (l.map (fun c => (s, c))).filter (fun x => decide (x.1 = s')) = [] := by
+      intro l; simp [List.filter_eq_nil_iff]; intro _ _ h; exact absurd h.symm hs'
+    rw [h2]
+    simp only [List.map_nil, List.append_nil, List.filter_filter]
+    congr 1
+    apply List.filter_congr
+    intro x _
+    by_cases hx : x.1 = s'
+    · have : x.1 ≠ s := by rw [hx]; exact hs'
+      simp [hx, hs']
+    · simp [hx]
+
+/-! ### the attribute operations (C29 model) -/
+
+/-- a C29 descriptor seen as a span with an opaque payload -/
+def toD {W : Type} (c : Sheet.Col W) : ColD (W × Bool × Bool × Option Int) :=
+  ⟨c.min, c.max, (c.width, c.customWidth, c.hidden, c.style)⟩
+
+theorem sortedIn_iff {W : Type} (lo hi : Int) (cols : List (Sheet.Col W)) :
+    Sheet.SortedIn lo hi cols ↔ SortedD lo hi (cols.map toD) := by
+  induction cols generalizing lo with
+  | nil => simp [Sheet.SortedIn, SortedD]
+  | cons d rest ih => simp only [Sheet.SortedIn, List.map_cons, SortedD, toD, ih]
+
+/-- the C29 well-formedness predicate is the column clause of C27 -/
+theorem wfCols_iff {W : Type} (cols : List (Sheet.Col W)) : Sheet.WfCols cols ↔ ColsWF (cols.map toD) :=
+  sortedIn_iff 0 16384 cols
+
+/-- set_column_width / set_column_hidden / set_column_style / delete_column_style preserve the
+    column clause (either variant of the code) -/
+theorem cols_attr_ops_wf {W : Type} (wo : Sheet.WidthOps W) (q : Sheet.Quirks) (cols cols' : List (Sheet.Col W))
+    (h : ColsWF (cols.map toD)) :
+    (∀ c w, Sheet.setColumnWidth wo q cols c w = .ok cols' → ColsWF (cols'.map toD)) ∧
+    (∀ c b, Sheet.setColumnHidden wo q cols c b = .ok cols' → ColsWF (cols'.map toD)) ∧
+    (∀ c k, Sheet.setColumnStyle wo q cols c k = .ok cols' → ColsWF (cols'.map toD)) ∧
+    (∀ c, Sheet.deleteColumnStyle q cols c = .ok cols' → ColsWF (cols'.map toD)) := by
+  obtain ⟨a, b, c, d⟩ := Sheet.col_ops_preserve_wf wo q cols cols' ((wfCols_iff cols).mpr h)
+  exact ⟨fun x w hx => (wfCols_iff _).mp (a x w hx), fun x w hx => (wfCols_iff _).mp (b x w hx),
+         fun x w hx => (wfCols_iff _).mp (c x w hx), fun x hx => (wfCols_iff _).mp (d x hx)⟩
+
+/-! ### rows -/
+
+/-- delete_rows / move_rows_action preserve the row clause; insert_rows preserves uniqueness and
+    the lower bound, and the upper bound when no entry is pushed past the last row -/
+theorem rows_structural_wf (rs : List Int) (h : RowsWF rs) :
+    (∀ r k : Int, 0 < k → 1 ≤ r → RowsWF (stepRowIdx (.delete r k) rs)) ∧
+    (∀ r k : Int, 0 < k → (∀ y ∈ rs, r ≤ y → y + k ≤ 1048576) → RowsWF (stepRowIdx (.insert r k) rs)) ∧
+    (∀ r k : Int, 0 < k → (stepRowIdx (.insert r k) rs).Nodup ∧ ∀ x ∈ stepRowIdx (.insert r k) rs, 1 ≤ x) ∧
+    (∀ (r : Int) (n : Nat) (d : Int), 1 ≤ r → r + n - 1 ≤ 1048576 → 1 ≤ r + d → r + n - 1 + d ≤ 1048576 →
+        RowsWF ((blockOps r n d).foldl (fun rs o => stepRowIdx o rs) rs)) := by
+  refine ⟨fun r k hk hr => rows_delete_wf r k hk hr rs h, fun r k hk hf => rows_insert_wf r k hk rs h hf, ?_,
+    fun r n d a b c e => rows_moveBlock_wf r n d a b c e rs h⟩
+  intro r k hk
+  refine ⟨stepRowIdx_nodup (.insert r k) hk rs h.1, ?_⟩
+  intro x hx
+  obtain ⟨y, hy, he⟩ := mem_stepRowIdx hx
+  have := h.2 y hy
+  simp only [rowDescCoord] at he
+  split at he <;> (try split at he) <;> simp_all <;> omega
+
+/-- F27e for rows: an entry on the last row is pushed off the grid by insert_rows -/
+theorem insert_rows_off_grid : RowsWF [1048576] ∧ ¬ RowsWF (stepRowIdx (.insert 1 1) [1048576]) := by
+  constructor
+  · exact ⟨by simp, by intro r hr; simp at hr; omega⟩
+  · intro h
+    have := h.2 1048577 (by decide)
+    omega
+
+/-- the row entries of one sheet after a structural step of the book model -/
+theorem stepRows_idx (s : Nat) (o : Op) (rows : List RowE) :
+    ((stepRows .row s o rows).filter (·.sheet = s)).map (·.r)
+      = stepRowIdx o ((rows.filter (·.sheet = s)).map (·.r)) := by
+  induction rows with
+  | nil => rfl
+  | cons e rest ih =>
+    simp only [stepRows, List.filterMap_cons, stepRowIdx] at ih ⊢
+    by_cases hs : e.sheet = s
+    · simp only [hs, if_true, List.filter_cons, decide_true, List.map_cons, List.filterMap_cons]
+      cases hc : rowDescCoord o e.r with
+      | none => simpa [hc] using ih
+      | some x => simp [hc, hs, ih]
+    · simp [hs, ih]
+
+theorem noDupRows_iff {H : Type} (rows : List (Sheet.Row H)) :
+    Sheet.NoDupRows rows ↔ (rows.map (·.r)).Nodup := by
+  induction rows with
+  | nil => simp [Sheet.NoDupRows]
+  | cons d rest ih =>
+    simp only [Sheet.NoDupRows, List.map_cons, List.nodup_cons, List.mem_map, ih]
+    constructor
+    · rintro ⟨h1, h2⟩
+      exact ⟨fun ⟨e, he, hr⟩ => h1 e he hr, h2⟩
+    · rintro ⟨h1, h2⟩
+      exact ⟨fun e he hr => h1 ⟨e, he, hr⟩, h2⟩
+
+theorem mem_updOrPush {H : Type} {row : Int} {f : Sheet.Row H → Sheet.Row H} (hf : ∀ d, (f d).r = d.r)
+    {n : Sheet.Row H} (hn : n.r = row) {rows : List (Sheet.Row H)} {e : Sheet.Row H}
+    (he : e ∈ Sheet.updOrPush row f n rows) : e.r = row ∨ ∃ e0 ∈ rows, e.r = e0.r := by
+  unfold Sheet.updOrPush at he
+  cases hu : Sheet.updFirst row f rows with
+  | some rows' =>
+    rw [hu] at he
+    exact Or.inr (Sheet.mem_updFirst hf hu e he)
+  | none =>
+    rw [hu] at he
+    rcases List.mem_append.mp he with he | he
+    · exact Or.inr ⟨e, he, rfl⟩
+    · simp only [List.mem_singleton] at he
+      subst he; exact Or.inl hn
+
+/-- set_row_height / set_row_hidden (which validate the row) and set_row_style on a valid row,
+    delete_row_style preserve the row clause (set_row_style itself does not validate the row:
+    `Model::set_row_style(sheet, 0, …)` creates an entry for row 0) -/
+theorem rows_attr_ops_wf {H : Type} (ho : Sheet.HeightOps H) (rows : List (Sheet.Row H))
+    (h : RowsWF (rows.map (·.r))) :
+    (∀ r v rows', Sheet.setRowHeight ho rows r v = .ok rows' → RowsWF (rows'.map (·.r))) ∧
+    (∀ r b rows', Sheet.setRowHidden ho rows r b = .ok rows' → RowsWF (rows'.map (·.r))) ∧
+    (∀ r k, Sheet.validRow r = true → RowsWF ((Sheet.setRowStyle ho rows r k).map (·.r))) ∧
+    (∀ r, RowsWF ((Sheet.deleteRowStyle rows r).map (·.r))) := by
+  have hnd := (noDupRows_iff rows).mpr h.1
+  obtain ⟨a, b, c, d⟩ := Sheet.row_ops_preserve_nodup ho rows hnd
+  have bound : ∀ (row : Int) (f : Sheet.Row H → Sheet.Row H) (n : Sheet.Row H), (∀ d, (f d).r = d.r) → n.r = row →
+      Sheet.validRow row = true → ∀ x ∈ (Sheet.updOrPush row f n rows).map (·.r), 1 ≤ x ∧ x ≤ 1048576 := by
+    intro row f n hf hn hv x hx
+    obtain ⟨e, he, rfl⟩ := List.mem_map.mp hx
+    rcases mem_updOrPush hf hn he with h1 | ⟨e0, h0, h1⟩
+    · have hv' : 1 ≤ row ∧ row ≤ 1048576 := by
+        unfold Sheet.validRow at hv
+        have h2 := (Bool.and_eq_true _ _).mp hv
+        exact ⟨of_decide_eq_true h2.1, of_decide_eq_true h2.2⟩
+      show 1 ≤ e.r ∧ e.r ≤ 1048576
+      rw [h1]; exact hv'
+    · show 1 ≤ e.r ∧ e.r ≤ 1048576
+      rw [h1]; exact h.2 _ (List.mem_map.mpr ⟨e0, h0, rfl⟩)
+  refine ⟨?_, ?_, ?_, ?_⟩
+  · intro r v rows' hr
+    refine ⟨(noDupRows_iff _).mp (a r v rows' hr), ?_⟩
+    unfold Sheet.setRowHeight at hr
+    by_cases hv : Sheet.validRow r = true
+    · simp only [hv, Bool.not_true, Bool.false_eq_true, if_false] at hr
+      cases hneg : ho.isNeg v
+      · simp only [hneg, Bool.false_eq_true, if_false, Sheet.isRowHidden, hv, Bool.not_true] at hr
+        cases hf : Sheet.findRow rows r <;> simp only [hf, Except.ok.injEq] at hr <;> subst hr <;>
+          exact bound r _ _ (by intro _; rfl) (by rfl) hv
+      · simp [hneg] at hr
+    · simp [hv] at hr
+  · intro r b' rows' hr
+    refine ⟨(noDupRows_iff _).mp (b r b' rows' hr), ?_⟩
+    unfold Sheet.setRowHidden at hr
+    by_cases hv : Sheet.validRow r = true
+    · simp only [hv, Bool.not_true, Bool.false_eq_true, if_false, Except.ok.injEq] at hr
+      subst hr
+      exact bound r _ _ (by intro _; rfl) (by rfl) hv
+    · simp [hv] at hr
+  · intro r k hv
+    exact ⟨(noDupRows_iff _).mp (c r k), bound r _ _ (by intro _; rfl) (by rfl) hv⟩
+  · intro r
+    refine ⟨(noDupRows_iff _).mp (d r), ?_⟩
+    intro x hx
+    obtain ⟨e, he, rfl⟩ := List.mem_map.mp hx
+    unfold Sheet.deleteRowStyle at he
+    cases hu : Sheet.updFirst r (fun d => { d with s := 0, customFormat := false }) rows with
+    | some rows' =>
+      rw [hu] at he
+      obtain ⟨e0, h0, h1⟩ := Sheet.mem_updFirst (by intro _; rfl) hu e he
+      rw [h1]; exact h.2 _ (List.mem_map.mpr ⟨e0, h0, rfl⟩)
+    | none =>
+      rw [hu] at he
+      exact h.2 _ (List.mem_map.mpr ⟨e, he, rfl⟩)
+
+/-! ### style indices -/
+open IronCalc.Sheet.Styles in
+/-- the index interning returns (what set_cell_style / set_row_style / set_column_style store) is an
+    index of `cell_xfs`, and `cell_xfs` only grows: indices stored earlier stay in range -/
+theorem style_index_in_range {F L B A : Type} [DecidableEq F] [DecidableEq L] [DecidableEq B] [DecidableEq A]
+    {T : List String} {sf : Bool} {p q : Pool F L B A} (hp : PoolInv T sf p) {s : Style F L B A} {i : Int}
+    (h : intern T sf p s = .ok (q, i)) :
+    (0 ≤ i ∧ i < (q.cellXfs.length : Int)) ∧
+    ∀ j : Int, (0 ≤ j ∧ j < (p.cellXfs.length : Int)) → (0 ≤ j ∧ j < (q.cellXfs.length : Int)) := by
+  have hrt := intern_roundtrip hp h
+  constructor
+  · unfold getStyle at hrt
+    cases hx : idx q.cellXfs i with
+    | none => simp [hx] at hrt
+    | some xf => exact ⟨(idx_some hx).1, (idx_some hx).2.1⟩
+  · have hlen : p.cellXfs.length ≤ q.cellXfs.length := by
+      unfold intern at h
+      cases hg : getStyleIndex T p s with
+      | error e => simp [hg] at h
+      | ok r =>
+        cases r with
+        | some k =>
+          simp only [hg, Except.ok.injEq, Prod.mk.injEq] at h
+          rw [← h.1]; exact Nat.le_refl _
+        | none =>
+          simp only [hg, Except.ok.injEq] at h
+          unfold createNewStyle at h
+          simp only [Prod.mk.injEq] at h
+          obtain ⟨rfl, _⟩ := h
+          obtain ⟨he, _⟩ := componentIds_spec hp s _ rfl
+          simp only [List.length_append, he.xfs]
+          omega
+    intro j hj
+    exact ⟨hj.1, by omega⟩
+
+end IronCalc.ColsWF
